@@ -2195,7 +2195,7 @@ fn c05_free_chain_abstract_fat() {
 #[kani::unwind(514)]
 fn c03_make_dir_root16() {
     let mut blocks: [Block; G16A_N] = zero_blocks();
-    blocks[G16A_FAT as usize] = fat16_concrete([0xFFFF, 0, 0xFFFF, 0]); // 2 used, 3 free, 4 used, 5 free
+    blocks[G16A_FAT as usize] = fat16_concrete([0xFFFF, 0, 0xFFFF, 0xFFFF]); // only cluster 3 is free
     {
         let r = &mut blocks[G16A_ROOT as usize].contents;
         let name = *b"KEEP    DAT";
@@ -2207,10 +2207,8 @@ fn c03_make_dir_root16() {
         r[11] = 0x20;
         put16(r, 26, 2);
     }
-    blocks[G16A_DATA as usize] = any_block(); // cluster 2 (KEEP's data)
-    blocks[(G16A_DATA + 1) as usize] = any_block(); // cluster 3: free, stale
+    blocks[(G16A_DATA + 1) as usize] = any_block(); // cluster 3: free, stale contents
     blocks[(G16A_DATA + 2) as usize] = any_block(); // cluster 4: another file's data, directly after the new directory
-    let d2 = blocks[G16A_DATA as usize].clone();
     let d4 = blocks[(G16A_DATA + 2) as usize].clone();
     let root0 = blocks[G16A_ROOT as usize].clone();
     let mut vol = g16a();
@@ -2222,29 +2220,29 @@ fn c03_make_dir_root16() {
     let root = dev.block(G16A_ROOT);
     let fat = dev.block(G16A_FAT);
     let c = le16(&root.contents, 32 + 26) as u32;
-    assert!(c == 3 || c == 5, "mkdir: directory cluster is not a previously free cluster");
-    assert!(f16(&fat, c) >= 0xFFF8, "mkdir: directory cluster not marked end-of-chain");
-    assert!(f16(&fat, 2) == 0xFFFF && f16(&fat, 4) == 0xFFFF, "fat.frame: mkdir changed another file's FAT entries");
+    assert!(c == 3, "mkdir: directory cluster is not the (only) previously free cluster");
+    assert!(f16(&fat, 3) >= 0xFFF8, "mkdir: directory cluster not marked end-of-chain");
+    assert!(f16(&fat, 2) == 0xFFFF && f16(&fat, 4) == 0xFFFF && f16(&fat, 5) == 0xFFFF, "fat.frame: mkdir changed another file's FAT entries");
     assert!(root.contents[32] == b'S' && root.contents[32 + 11] & 0x10 != 0 && le32(&root.contents, 32 + 28) == 0, "mkdir: parent entry (name, directory attribute, size 0)");
     let mut p = 0;
     while p < 32 {
         assert!(root.contents[p] == root0.contents[p], "dir.frame: mkdir changed another directory entry");
         p += 1;
     }
-    let d = dev.block(G16A_DATA + c - 2);
-    assert!(d.contents[0] == b'.' && d.contents[1] == b' ' && d.contents[11] & 0x10 != 0 && le16(&d.contents, 26) as u32 == c, "mkdir: '.' entry must designate the directory itself");
+    let d = dev.block(G16A_DATA + 1);
+    assert!(d.contents[0] == b'.' && d.contents[1] == b' ' && d.contents[11] & 0x10 != 0 && le16(&d.contents, 26) == 3, "mkdir: '.' entry must designate the directory itself");
     assert!(d.contents[32] == b'.' && d.contents[33] == b'.' && d.contents[34] == b' ' && d.contents[32 + 11] & 0x10 != 0 && le16(&d.contents, 32 + 26) == 0, "mkdir: '..' entry of a directory in the root must hold cluster 0");
     p = 64;
     while p < 512 {
         assert!(d.contents[p] == 0, "mkdir: rest of the new directory cluster not zero (stale entries exposed)");
         p += 1;
     }
-    let n2 = dev.block(G16A_DATA);
     let n4 = dev.block(G16A_DATA + 2);
     p = 0;
     while p < 512 {
-        assert!(n2.contents[p] == d2.contents[p] && n4.contents[p] == d4.contents[p], "write.region: mkdir changed a data cluster that belongs to another file");
+        assert!(n4.contents[p] == d4.contents[p], "write.region: mkdir changed the data cluster that physically follows the new directory");
         p += 1;
     }
+    assert!(!dev.wrote(G16A_DATA) && !dev.wrote(G16A_DATA + 2) && !dev.wrote(G16A_DATA + 3) && !dev.wrote(8) && !dev.wrote(1), "write.region: mkdir wrote a block outside the parent directory, the FAT and the new cluster");
     kani::cover!(c == 3);
 }
